@@ -152,7 +152,7 @@ pub fn effective_ops(b: &Bench, model: u16, kind: u8, msg: &RMsg, now: i64) -> V
                     nconns: conns.len(),
                 });
             }
-            Op::ReadTime | Op::Nested { .. } => v.push(EffOp {
+            Op::ReadTime | Op::Yield | Op::Nested { .. } => v.push(EffOp {
                 idx: i,
                 port: None,
                 child: None,
@@ -762,6 +762,7 @@ fn check_phase(b: &Bench, dag: bool, clones: bool, qualified: &[String], p: &Pha
                                 return Err(mfail(&["C01", "C15"], "context-time", format!("{}: cx.time() returned {} at time {}", p.label, t, p.now)));
                             }
                         }
+                        (None, OpRes::Other) => {}
                         _ => {
                             return Err(mfail(&["C04"], "handler-ops", format!("{}: operation {} of model {} has result {:?}", p.label, o.idx, h.model, res)));
                         }
@@ -1257,6 +1258,7 @@ fn mop_strategy(nscripts: u16) -> BoxedStrategy<Op> {
         6 => (0u8..3, 0..nscripts).prop_map(|(out, script)| Op::Send { out, script }),
         3 => (0u8..2, 0..nscripts, prop_oneof![3 => Just(0u8), 1 => 1u8..3]).prop_map(|(req, script, take)| Op::Query { req, script, take }),
         1 => Just(Op::ReadTime),
+        1 => Just(Op::Yield),
     ]
     .boxed()
 }
